@@ -96,7 +96,7 @@ def case(draw, nmax=12, force_batch=None):
         e = draw(phylo.tree_part(n, (t["kind"],)))
         extra.append({k: e[k] for k in ("ratios", "root_inc", "shifts") if k in e})
     return {"topo": topo, "tree": t, "B": B, "extra": extra, "route": draw(st.sampled_from(["json", "json", "keep", "transform"])),
-            "int_dates": draw(st.booleans())}
+            "int_dates": draw(st.booleans()), "neg_dates": draw(st.sampled_from([False, False, True]))}
 
 
 def slices(c):
@@ -128,6 +128,9 @@ def params_tensor(c, hs, n):
 def tree_spec(c, names, dates, topo, rows, keep_newick=None):
     kind = c["tree"]["kind"]
     B = c["B"]
+    if c.get("neg_dates") and max(c["tree"]["tip_heights"]) > 0:
+        # time measured back from the most recent sample: dates <= 0 with maximum exactly 0
+        dates = [-float(h) if h else 0.0 for h in c["tree"]["tip_heights"]]
     if c.get("int_dates"):
         # whole-number dates written the way people write them (2011, not 2011.0)
         dates = [int(d) if float(d).is_integer() else d for d in dates]
